@@ -21,7 +21,9 @@
 //	                  not the metadata of any ammo entry and must not reach a call)
 //	      fl=<plan>   the target's ANSWERS (not pandora's to choose): p<c>.<c>.…  = the i-th unary call the
 //	                  target receives in this case is answered with gRPC status c without running the handler
-//	                  (0 = handler);  h<salt>.<permille> = content-keyed (engine mode): a call is answered with
+//	                  (0 = handler), a slot  <c>+<ms>  = that answer comes <ms> milliseconds after the call arrived
+//	                  (the target's LATENCY; not less than the deadline the call arrived with = not answered in
+//	                  time);  h<salt>.<permille> = content-keyed (engine mode): a call is answered with
 //	                  an injected status chosen by a hash of salt+method+message+metadata in permille/1000 of the cases
 //	scen <ninst>[r] <timeout_ms> <order> <users> <calls> <scenarios> [rm=<meta>] [fl=<plan>]   (r: reflect_port as above)
 //	    order     = instance index per shot (comma list); shot j: instance order[j] acquires the
@@ -32,7 +34,9 @@
 //	                payloadhex = the payload template text;  pp=1: the call has the `prepare`
 //	                preprocessor  u = source.users[next]  (templates refer to
 //	                {{.request.<pp call>.preprocessor.u.token}} / …u.id}})
-//	    scenarios = namehex:idx.idx.…|…   (indices into calls)
+//	    scenarios = namehex:step.step.…|…   step = idx (index into calls) | idx~ms | idx^ms : think time of
+//	                <ms> milliseconds after the step, written  name(1,ms)  (~)  or  name(1), sleep(ms)  (^)
+//	                in the requests list of the scenario
 //
 // Observation (direct and scen): one item per shot-step  code;call  where call = - or
 // methodhex/msg/md/timeout_s/status (a20.Call). Scenario: steps of a shot joined by '|', shots by '#'.
@@ -221,11 +225,18 @@ func armFaults(fl string) func() {
 	switch {
 	case strings.HasPrefix(fl, "p"):
 		var plan []uint32
+		var delays []int
 		for _, c := range strings.Split(fl[1:], ".") {
+			d := 0
+			if i := strings.IndexByte(c, '+'); i >= 0 {
+				d, _ = strconv.Atoi(c[i+1:])
+				c = c[:i]
+			}
 			k, _ := strconv.Atoi(c)
 			plan = append(plan, uint32(k))
+			delays = append(delays, d)
 		}
-		srv.SetPlan(plan)
+		srv.SetPlanDelays(plan, delays)
 	case strings.HasPrefix(fl, "h"):
 		x := strings.Split(fl[1:], ".")
 		salt := x[0]
@@ -443,6 +454,15 @@ func runScen(f []string) string {
 		x := strings.Split(s, ":")
 		var reqs []string
 		for _, is := range strings.Split(x[1], ".") {
+			if i := strings.IndexAny(is, "~^"); i >= 0 {
+				k, _ := strconv.Atoi(is[:i])
+				if is[i] == '~' {
+					reqs = append(reqs, names[k]+"(1,"+is[i+1:]+")")
+				} else {
+					reqs = append(reqs, names[k]+"(1)", "sleep("+is[i+1:]+")")
+				}
+				continue
+			}
 			k, _ := strconv.Atoi(is)
 			reqs = append(reqs, names[k]+"(1)")
 		}
